@@ -786,6 +786,33 @@ func (e *Enc) instr(st *State, ins ssa.Instruction) {
 				e.oblige("pre", "closure."+fn.Name()+"."+anchor, clauseProps(cl, e.autoProps()), st.reach, t, "captured variables of "+funcKey(fn)+": "+cl.Text, ins.Pos())
 			}
 		}
+		if e.c != nil {
+			for _, cs := range e.c.CallSites {
+				if cs.Callee != "closure:"+fn.Name() {
+					continue
+				}
+				sc := e.specCtx(st, e.pre)
+				sc.preferLocals = true
+				for i, b := range ins.Bindings {
+					if i >= len(fn.FreeVars) {
+						break
+					}
+					t := fn.FreeVars[i].Type().(*types.Pointer).Elem()
+					sc.vars[fn.FreeVars[i].Name()] = e.loadVal(st, e.val(st, b), t)
+					sc.vtypes[fn.FreeVars[i].Name()] = t
+				}
+				t, err := sc.evalBool(cs.Clause.Expr)
+				if err != nil {
+					e.unsupported = fmt.Sprintf("closure %s: %q: %v", fn.Name(), cs.Clause.Text, err)
+					return
+				}
+				anchor := cs.Clause.Label
+				if anchor == "" {
+					anchor = "closure." + fn.Name()
+				}
+				e.oblige("ghost", anchor, clauseProps(cs.Clause, e.autoProps()), st.reach, t, "where the closure "+fn.Name()+" is created: "+cs.Clause.Text, ins.Pos())
+			}
+		}
 		e.vals[ins] = tv(r)
 	case *ssa.ChangeType, *ssa.ChangeInterface:
 		var x ssa.Value
@@ -996,7 +1023,7 @@ func (e *Enc) indexAddr(st *State, ins *ssa.IndexAddr) {
 		e.declSlice()
 		et = xt.Elem()
 		base = app(SInt, "sl_base", x.T)
-		idx = Add(app(SInt, "sl_off", x.T), i)
+		idx = e.eix(app(SInt, "sl_off", x.T), i)
 		e.oblige("idx", anchor, ap, st.reach, And(Le(I(0), i), Lt(i, app(SInt, "sl_len", x.T))), "slice index out of range", ins.Pos())
 	case *types.Pointer:
 		at := xt.Elem().Underlying().(*types.Array)
@@ -1392,7 +1419,9 @@ func (e *Enc) ret(st *State, ins *ssa.Return) {
 			anchor = fmt.Sprintf("ensures%d", i)
 		}
 		_ = k
-		e.oblige("post", anchor, clauseProps(cl, e.autoProps()), st.reach, t, cl.Text, ins.Pos())
+		// postconditions are independent obligations: a failing one (a known finding, say) must not be assumed for
+		// the ones after it on the same return path
+		e.obligeNoAssume("post", anchor, clauseProps(cl, e.autoProps()), st.reach, t, cl.Text, ins.Pos())
 	}
 	e.frameAtReturn(st, ins)
 }
